@@ -92,7 +92,7 @@ fn distinct_sends(l: &[SOp]) -> bool {
 }
 
 fn sp(threads: Vec<Vec<SOp>>) -> SProg {
-    SProg { threads, loom_arc: false, forget_rx: false }
+    SProg { threads, loom_arc: false, forget_rx: false, rx_owner: 0 }
 }
 
 pub fn pinned(prop: &str) -> Vec<SProg> {
@@ -112,7 +112,7 @@ pub fn pinned(prop: &str) -> Vec<SProg> {
             // park token delivered while the target waits for a mutex (property text C08)
             v.push(sp(vec![vec![Lock(0), Unpark(1), Unlock(0), Join(1)], vec![Lock(0), Unlock(0), Park]]));
             // lock-order inversion with the mutexes behind loom::sync::Arc (property text C05)
-            v.push(SProg { threads: vec![vec![Lock(0), Lock(1), Unlock(1), Unlock(0)], vec![Lock(1), Lock(0), Unlock(0), Unlock(1)]], loom_arc: true, forget_rx: false });
+            v.push(SProg { threads: vec![vec![Lock(0), Lock(1), Unlock(1), Unlock(0)], vec![Lock(1), Lock(0), Unlock(0), Unlock(1)]], loom_arc: true, forget_rx: false, rx_owner: 0 });
             v.push(sp(vec![vec![Lock(0), Lock(1), Unlock(1), Unlock(0)], vec![Lock(1), Lock(0), Unlock(0), Unlock(1)]]));
             // two unparks coalescing before the first park
             v.push(sp(vec![vec![Unpark(1), Unpark(1), Join(1)], vec![Park, Park]]));
@@ -128,7 +128,7 @@ pub fn pinned(prop: &str) -> Vec<SProg> {
         }
         "C06" => {
             // panic before a spawned thread has ever run, objects behind loom::sync::Arc (property text C06)
-            v.push(SProg { threads: vec![vec![Fail(0)], vec![ALoad(0)]], loom_arc: true, forget_rx: false });
+            v.push(SProg { threads: vec![vec![Fail(0)], vec![ALoad(0)]], loom_arc: true, forget_rx: false, rx_owner: 0 });
             v.push(sp(vec![vec![Fail(0)], vec![ALoad(0)]]));
             v.push(sp(vec![vec![Lock(0), Fail(0), Unlock(0)], vec![Lock(0), Unlock(0)]]));
             v.push(sp(vec![vec![Join(1)], vec![Lock(0), Lock(1), Fail(1), Unlock(1), Unlock(0)]]));
@@ -138,8 +138,8 @@ pub fn pinned(prop: &str) -> Vec<SProg> {
             v.push(sp(vec![vec![Lock(0), CvWait, Unlock(0)], vec![Fail(1)]]));
             v.push(sp(vec![vec![Lock(0), FailInCell(0), Unlock(0)], vec![Lock(0), Unlock(0)]]));
             v.push(sp(vec![vec![Join(1)], vec![Read, FailInAtomicMut(1), RwUnlock]]));
-            v.push(SProg { threads: vec![vec![Lock(0), Lock(1), Unlock(1), Unlock(0)], vec![Lock(1), Lock(0), Unlock(0), Unlock(1)]], loom_arc: true, forget_rx: false });
-            v.push(SProg { threads: vec![vec![Send(1), Park], vec![Write, Park, RwUnlock]], loom_arc: true, forget_rx: false });
+            v.push(SProg { threads: vec![vec![Lock(0), Lock(1), Unlock(1), Unlock(0)], vec![Lock(1), Lock(0), Unlock(0), Unlock(1)]], loom_arc: true, forget_rx: false, rx_owner: 0 });
+            v.push(SProg { threads: vec![vec![Send(1), Park], vec![Write, Park, RwUnlock]], loom_arc: true, forget_rx: false, rx_owner: 0 });
         }
         "C07" => {
             v.push(sp(vec![vec![Lock(0), Incr(0), Unlock(0)], vec![Lock(0), Incr(0), Unlock(0)], vec![Lock(0), Incr(0), Unlock(0)]]));
